@@ -2,6 +2,7 @@ import GluonModel.Sexp
 import GluonModel.GcAccount
 import GluonModel.StackVerify
 import GluonModel.CallStack
+import GluonModel.TailPos
 open GluonModel
 
 namespace C07
@@ -168,6 +169,39 @@ def renderErr : Err → String
   | .bound => "bound"
 
 end Calls
+/-! tail positions -/
+section Tail
+open GluonModel.TailPos
+
+mutual
+partial def parseE : Sexp → Option E
+  | .atom "a" => some .atom
+  | .list [.atom "let", b, body] => do pure (.letE (← parseE b) (← parseE body))
+  | .list [.atom "rec", .list vs, body] => do pure (.letRec (← parseEs vs) (← parseE body))
+  | .list [.atom "call", f, .list args] => do pure (.call (← parseE f) (← parseEs args))
+  | .list [.atom "ctor", .list args] => do pure (.ctor (← parseEs args))
+  | .list [.atom "and", l, r] => do pure (.andE (← parseE l) (← parseE r))
+  | .list [.atom "or", l, r] => do pure (.orE (← parseE l) (← parseE r))
+  | .list [.atom "bin", l, r] => do pure (.binE (← parseE l) (← parseE r))
+  | .list [.atom "prim", l, r] => do pure (.primOther (← parseE l) (← parseE r))
+  | .list [.atom "match", s, .list alts] => do pure (.matchE (← parseE s) (← parseAlts alts))
+  | .list [.atom "data", .list xs] => do pure (.data (← parseEs xs))
+  | .list [.atom "cast", e] => do pure (.cast (← parseE e))
+  | _ => none
+partial def parseEs : List Sexp → Option Es
+  | [] => some .nil
+  | x :: xs => do pure (.cons (← parseE x) (← parseEs xs))
+partial def parseAlts : List Sexp → Option Alts
+  | [] => some .nil
+  | .list [.atom k, e] :: xs => do pure (.cons (k == "1") (← parseE e) (← parseAlts xs))
+  | _ => none
+end
+
+def renderFlags (fs : List Bool) : String :=
+  "(" ++ " ".intercalate (fs.map fun b => if b then "T" else "N") ++ ")"
+
+end Tail
+
 end C07
 
 open C07 in
@@ -197,6 +231,10 @@ def handle : List Sexp → String
       | .ok a => s!"(ok {a.st.values} {a.st.frames.length} {a.peakDepth})"
       | .error e => renderErr e
     | _, _, _ => "bad-request"
+  | [.atom "tailpos", e] =>
+    match parseE e with
+    | some e => renderFlags (GluonModel.TailPos.bodyFlags e)
+    | none => "bad-request"
   | [.atom "intr", k, segs] =>
     match k.toNat?, segs.toNat? with
     | some k, some segs =>
